@@ -15,8 +15,9 @@ Gates (what the property states):
   * (Delta + f).reduce(logaddexp | max, v) = f(p), Integrate(Delta, f, v) = f(p)   for a unit-mass Delta
   * x.sample(vars, sample_inputs): inputs = original + effective sample inputs, output Real; for every
     particle and batch element exactly one cell of the sampled variables carries mass, it lies in the
-    support, the mass equals the original's mass over the sampled variables; same uniforms -> same result;
-    the measure of uniforms mapped to each cell equals its probability (grid over particles)
+    support (for EVERY uniform in [0,1), including 0.0 and 1-2^-53), the mass equals the original's mass
+    over the sampled variables; same uniforms -> same result; the measure of uniforms mapped to each cell
+    equals its probability (grid over particles)
   * Gaussian samples are affine in the injected noise with the Gaussian's mean and covariance.
 Counted, not gated (model fidelity): the exact cell index / normaliser per (particle, batch element)
 predicted by the Lean model, and Deltas with log_density != 0 under reduce / Integrate.
@@ -976,20 +977,23 @@ f = Tensor(np.array({fdata}, dtype=np.float64), OrderedDict((k, Bint[v]) for k, 
 full = Tensor(pdata, binputs, n)
 point = Number(int(pdata), n) if form == "number" else (Variable("y", Bint[n]) if form == "lazy" else full)
 d = Delta("x", point, Number({ld}))
-with np.errstate(all="ignore"):
-    if which == "integrate":
-        r = Integrate(d, f, "x")
-    else:
-        op = ops.logaddexp if which == "reduce-logaddexp" else ops.max
-        r = ((d + f) if side == "delta+f" else (f + d)).reduce(op, "x")
-    if form == "lazy":
-        r = r(y=full)
-    want = f(x=full)          # the funsor evaluated at the point
-    diff = ops.abs(r.exp() - want.exp()) if which == "reduce-logaddexp" else ops.abs(r - want)
-    worst = diff.reduce(ops.max)
-print("result", r, "expected", want)
-FAILS = not (float(np.nan_to_num(np.asarray(worst.data), nan=np.inf)) <= 1e-9) and not (
-    np.array_equal(np.asarray((r - want).reduce(ops.max).data), np.array(np.nan)) and False)
+FAILS = False
+try:
+    with np.errstate(all="ignore"):
+        if which == "integrate":
+            r = Integrate(d, f, "x")
+        else:
+            op = ops.logaddexp if which == "reduce-logaddexp" else ops.max
+            r = ((d + f) if side == "delta+f" else (f + d)).reduce(op, "x")
+        if form == "lazy":
+            r = r(y=full)
+        want = f(x=full)          # the funsor evaluated at the point
+        diff = ops.abs(r - want) if which == "integrate" else ops.abs(r.exp() - want.exp())   # exp(-inf) = 0
+        worst = diff.reduce(ops.max)
+    print("result", r, "expected", want)
+    FAILS = not (float(np.nan_to_num(np.asarray(worst.data, dtype=np.float64), nan=np.inf)) <= 1e-9)
+except (NotImplementedError, AssertionError, ValueError) as e:
+    print("declined:", type(e).__name__)     # a decline is allowed by the property
 """
 
 
@@ -1186,6 +1190,11 @@ def check_gauss_case(ctx, c):
     xb = rs.standard_normal(len(b_idx))
     wit = dict(order=[(n, list(v)) for n, v in c["order"]], rank=c["rank"], sampled=c["sampled"],
                noise=c["noise"], seed=c["seed"])
+    from ..common import VERIF
+    gpy = GAUSS_PY.format(verif=str(VERIF), case=dict(order=[(n, [t, list(k) if isinstance(k, tuple) else k])
+                                                               for n, (t, k) in c["order"]],
+                                                        rank=c["rank"], sampled=c["sampled"], noise=c["noise"],
+                                                        seed=c["seed"], mode=c["mode"]))
 
     def draw(eps):
         """eps: array pshape + ishape + (da,) -> flat sample of the a-block, same leading shape."""
@@ -1229,7 +1238,7 @@ def check_gauss_case(ctx, c):
             return
         want_calls = 0 if c["noise"] == "lazy" else 1
         if ncalls != want_calls:
-            ctx.fail("input", "C14.gauss-random-state", witness=wit, expected=f"{want_calls} randn call(s)",
+            ctx.fail("input", "C14.gauss-random-state", witness=wit, python=gpy, expected=f"{want_calls} randn call(s)",
                      got=str(ncalls))
             return
         cols = []
@@ -1246,22 +1255,22 @@ def check_gauss_case(ctx, c):
         ctx.count(f"gauss:declined:{type(e).__name__}")
         return
     except RuntimeError as e:
-        ctx.fail("input", "C14.gauss-sample-structure", witness=wit, expected="one randn of the noise shape",
+        ctx.fail("input", "C14.gauss-sample-structure", witness=wit, python=gpy, expected="one randn of the noise shape",
                  got=str(e))
         return
     # inputs/output
     want_inputs = set(inputs) | set(si)
     if set(s0.inputs) != want_inputs or s0.output != Real:
-        ctx.fail("input", "C14.gauss-sample-inputs", witness=wit, expected=str(sorted(want_inputs)),
+        ctx.fail("input", "C14.gauss-sample-inputs", witness=wit, python=gpy, expected=str(sorted(want_inputs)),
                  got=str(sorted(s0.inputs)))
         return
     tol = dict(rtol=1e-7, atol=1e-8)
     if not np.array_equal(xr, xr2):
-        ctx.fail("input", "C14.gauss-deterministic", witness=wit, expected="same noise, same sample", got="differs")
+        ctx.fail("input", "C14.gauss-deterministic", witness=wit, python=gpy, expected="same noise, same sample", got="differs")
         return
     pred = x0 + (A @ eps[..., None])[..., 0]
     if not np.allclose(xr, pred, **tol):
-        ctx.fail("input", "C14.gauss-affine", witness=wit, expected=str(pred.tolist()), got=str(xr.tolist()))
+        ctx.fail("input", "C14.gauss-affine", witness=wit, python=gpy, expected=str(pred.tolist()), got=str(xr.tolist()))
         return
     # dense oracle: conditional of a given b
     Laa = Lam[..., a_idx, :][..., :, a_idx]
@@ -1276,13 +1285,13 @@ def check_gauss_case(ctx, c):
     if not np.allclose(x0, mu_b, **tol):
         w = dict(wit)
         w["problem"] = "sample at zero noise is not the (conditional) mean"
-        ctx.fail("input", "C14.gauss-mean", witness=w, expected=str(mu_b.tolist()), got=str(x0.tolist()))
+        ctx.fail("input", "C14.gauss-mean", witness=w, python=gpy, expected=str(mu_b.tolist()), got=str(x0.tolist()))
         return
     AAt = A @ np.swapaxes(A, -1, -2)
     if not np.allclose(AAt, cov_b, **tol):
         w = dict(wit)
         w["problem"] = "A A^T of the affine map noise -> sample is not the (conditional) covariance"
-        ctx.fail("input", "C14.gauss-cov", witness=w, expected=str(cov_b.tolist()), got=str(AAt.tolist()))
+        ctx.fail("input", "C14.gauss-cov", witness=w, python=gpy, expected=str(cov_b.tolist()), got=str(AAt.tolist()))
         return
     # mass: sample.reduce == original.reduce over the sampled variables (full sampling: a Tensor)
     if not b_idx and c["noise"] != "lazy":
@@ -1297,13 +1306,34 @@ def check_gauss_case(ctx, c):
             dense = 0.5 * dim * math.log(2 * math.pi) - 0.5 * np.linalg.slogdet(Lam)[1] - 0.5 * r2
             if t1 is not None and t0 is not None:
                 if not np.allclose(t1, t0, **tol) or not np.allclose(t1, np.broadcast_to(dense, t1.shape), rtol=1e-6, atol=1e-7):
-                    ctx.fail("input", "C14.gauss-mass", witness=wit, expected=str(np.asarray(dense).tolist()),
+                    ctx.fail("input", "C14.gauss-mass", witness=wit, python=gpy, expected=str(np.asarray(dense).tolist()),
                              got=str(t1.tolist()))
                     return
                 ctx.count("gauss:mass-checked")
         except DECLINE as e:
             ctx.count(f"gauss:reduce-declined:{type(e).__name__}")
     ctx.case(sample=wit, nontrivial_key=("gauss", str(wit)) if da >= 2 or b_idx else None)
+
+
+GAUSS_PY = """
+# replay for C14: Gaussian.sample with injected noise (re-runs the harness' dense numpy comparison:
+# Gaussian(white_vec, prec_sqrt) built from RandomState(seed) as in fv/harness/c14.py gauss_parts)
+import sys
+sys.path.insert(0, {verif!r})
+from fv.harness.c14 import replay_gauss
+FAILS = replay_gauss({case!r})
+"""
+
+
+def replay_gauss(case):
+    from ..common import Ctx
+    ctx = Ctx("C14")
+    c = dict(case)
+    c["order"] = [(n, (t, tuple(k) if isinstance(k, (list, tuple)) else k)) for n, (t, k) in c["order"]]
+    check_gauss_case(ctx, c)
+    for f in ctx.failures:
+        print(f.name, (f.witness or {}).get("problem", ""), "expected", f.expected, "got", f.got)
+    return bool(ctx.failures)
 
 
 def gauss_streams(ctx):
@@ -1341,9 +1371,12 @@ def correspond(ctx):
         "Tensor.sample: every shape over 1-3 inputs of sizes 1-4 x every non-empty subset of sampled variables "
         "(thorough: 8 data draws each) + random cases; weights in {0,1/4,1/2,1,2,3,4} (0 = -inf logit) incl. {0,1} "
         "tensors and all-zero rows; 0-2 sample inputs (sizes 1-3, sometimes named like an existing input); uniforms "
-        "chosen by the harness through a stub of numpy.random.rand: 2^-60, 0.5, 1-2^-53 (rows with exact float "
-        "arithmetic) / 1-2^-20, a coarse grid, exact CDF boundaries (dyadic rows), boundary +-1e-6/1e-4, seeded "
-        "streams; plus a 64-point even grid of uniforms per batch element (law check).  Delta: integer / real / "
+        "chosen by the harness through a stub of numpy.random.rand, over its whole range [0,1): exactly 0.0, 2^-60, "
+        "0.5, 1-k*2^-53 (k=1..8), a coarse grid, exact CDF boundaries (dyadic rows), boundary +-1e-6/1e-4, seeded "
+        "streams; a dedicated stream of rows whose float cumsum ends below 1 with leading/interior/trailing zero "
+        "cells (e.g. [0,1/4,7,1/4], [1/4,7,1/4,0], up to 64 cells) drawn at 0.0 and in the top ulps; plus a 64-point "
+        "even grid of uniforms per batch element (law check).  The draw statement of Tensor._sample is re-read from "
+        "the source on every run (Gen/C14Variant.lean) and cross-checked on the live function.  Delta: integer / real / "
         "vector points given as Number, Tensor with 0-2 batch inputs, or a free variable bound afterwards; "
         "log-density 0 / number / tensor / -inf; evaluated at every value of the domain; (Delta+f) and (f+Delta) "
         "reduced by logaddexp and max; Integrate(Delta, f).  Gaussian.sample: 0-2 integer inputs, 1-3 real inputs of "
@@ -1359,8 +1392,9 @@ def correspond(ctx):
     tot = d.get("sample:fidelity-ok", 0) + d.get("sample:fidelity-differs", 0)
     ctx.extra["sample_model_fidelity"] = (d.get("sample:fidelity-ok", 0) / tot) if tot else None
     ctx.assumptions.append("exact rational arithmetic in the model: rounding of exp / division / cumsum in "
-                           "Tensor._sample is not modelled; clean-stream uniforms stay 1e-9 away from CDF boundaries "
-                           "unless the row's probabilities are dyadic, and below 1-2^-20 unless they are dyadic")
+                           "Tensor._sample is not modelled (the rounding guard is proved to be the identity in exact "
+                           "arithmetic, clamp_noop); its float behaviour is covered by the correspondence only "
+                           "(support/mass gates at r = 0.0 and in the top ulps of [0,1))")
     ctx.assumptions.append("Gaussian sampling is tied by dense numpy comparison (rtol 1e-7) to the mean / covariance "
                            "computed from prec_sqrt and white_vec; gaussian_sample_affine is linear algebra over Q")
     ctx.assumptions.append("Deltas with log_density != 0 are gated for evaluation only; their reduce/Integrate "
